@@ -656,7 +656,7 @@ impl Callbacks for Cb {
         for ldid in tcx.hir_crate_items(()).definitions() {
             let did = ldid.to_def_id();
             match tcx.def_kind(did) {
-                DefKind::Const { .. } | DefKind::AssocConst { .. } => {
+                DefKind::Const { .. } | DefKind::AssocConst { .. } | DefKind::AnonConst | DefKind::InlineConst => {
                     if tcx.generics_of(did).requires_monomorphization(tcx) {
                         continue;
                     }
